@@ -15,7 +15,8 @@ spec -> code
   one real KeyRing: scripted KeyDatabase, the real DirectKeyFetcher / PerspectiveKeyFetcher (observed at the
   KeyFetcher interface) over a scripted KeyClient with really signed key responses, real ed25519 signatures
   on the messages; after every call the result, the fetchers contacted (and what they were asked) and the
-  content of the database are compared.
+  content of the database are compared.  (thorough: one family is replayed a second time with scripted
+  KeyFetchers, -mode stub.)
 design check
   KeyLife_asbuilt.cfg runs the same clauses over the store rule keyring.go implements (a key a fetcher
   volunteers overwrites the database entry of a key ID the call did not ask for); TLC's verdict on it is
@@ -56,11 +57,14 @@ REQUIRED = STEP_KINDS + (
     "call:db-changed", "call:volunteered-key-stored", "call:other-key-held-while-sources-differ")
 
 
-def _replay(ctx, tag, records, counts):
+def _replay(ctx, tag, records, counts, also_stub=False):
     if not records:
         raise MachineryError("KeyLife_gen %s emitted no behaviour (dead generator)" % tag)
     _census(records, counts)
     ctx.replay_and_compare("x02life", records, pkg="x02")
+    if also_stub:
+        # the same behaviours with scripted KeyFetchers in place of the real Direct / Perspective fetchers
+        ctx.replay_and_compare("x02life", records, args=["-mode", "stub"], pkg="x02")
     return len(records)
 
 
@@ -97,17 +101,19 @@ def run(ctx):
     ctx._spec_dir()
     ctx.harness_build(pkg="x02")
 
-    # design-level check of the store rule the implementation uses (expected: refuted)
+    # design-level check of the store rule the implementation uses (expected: refuted; TLC stops at the first
+    # counterexample, so its state counts are not part of the coverage figures)
+    states0, trans0 = ctx.states, ctx.transitions
     ab = ctx.tlc("KeyLife_gen", "KeyLife_asbuilt.cfg", workers=4, timeout=600, allow_violation=True,
                  expect_records=False)
     ctx.notes["as_built_store_rule"] = (
         "TLC refutes %s for StoreRule=asbuilt (a volunteered stale copy revives a retired key)" % ab.violated
         if ab.violated else "StoreRule=asbuilt satisfies RetiredForGood within KeyLife_asbuilt.cfg")
     del ab
+    ctx.states, ctx.transitions = states0, trans0
 
     if quick:
         jobs = [("cover", "KeyLife_gen_quick.cfg"), ("paths", "KeyLife_gen_paths_quick.cfg")]
-        states0, trans0 = ctx.states, ctx.transitions
         with concurrent.futures.ThreadPoolExecutor(max_workers=len(jobs)) as ex:
             futs = [ex.submit(ctx.tlc, "KeyLife_gen", cfg, max(2, ctx.workers // 2), 900) for _, cfg in jobs]
             results = [f.result() for f in futs]
@@ -118,9 +124,10 @@ def run(ctx):
             r.records = None
     else:
         for tag, cfg in (("cover", "KeyLife_gen_thorough.cfg"), ("cover-wide", "KeyLife_gen_wide_thorough.cfg"),
+                         ("cover-deep", "KeyLife_gen_deep_thorough.cfg"),
                          ("paths", "KeyLife_gen_paths_thorough.cfg")):
             r = ctx.tlc("KeyLife_gen", cfg, timeout=1500)
-            total += _replay(ctx, tag, r.records, counts)
+            total += _replay(ctx, tag, r.records, counts, also_stub=(tag == "cover-deep"))
             del r
     ctx.notes["behaviours_replayed"] = total
     ctx.notes["step_census"] = {k: counts[k] for k in sorted(counts)}
